@@ -34,7 +34,9 @@ HugeClasses == {"in_params", "as_id", "bare", "in_batch"}
 ElemsSmall == {RD("s_v20", "i1", "m_ok", "a_1"), RD("s_v20", "s_1", "m_ok", Absent), RD("s_v20", Absent, "m_ok", "o_a"),
                RD("s_v20", "i0", "m_perr", Absent), RD("s_v20", "i2", "m_exc", Absent), RD("s_v20", "null", "m_exc", Absent),
                RD("s_v20", "i3", "m_unk", Absent), RD("s_v20", "s_empty", "m_one", Absent),
-               RD("s_v10", "i3", "m_ok", Absent), RD("s_v20", "true", "m_ok", Absent), NaReq("i1"), NaReq("a_empty")}
+               RD("s_v10", "i3", "m_ok", Absent), RD("s_v20", "true", "m_ok", Absent), NaReq("i1"), NaReq("a_empty"),
+               RD("s_v20", "a_1", "m_ok", Absent),            \* an id that is an array (not hashable in Python)
+               RD("s_v20", Absent, "m_int", Absent)}          \* a notification that fails with an internal error while being bound
 C01Limits == {"unset", "n0", "n1", "n2"}
 InitC01(n) ==
     \/ \E kf \in KindFl, j \in JsonrpcFull, i \in IdFull, m \in MethodFull, p \in ParamsFull :
@@ -52,7 +54,7 @@ InitC01(n) ==
 ElemKinds == {<<"s_v20", "m_ok", "a_1">>, <<"s_v20", "m_unk", Absent>>, <<"s_v20", "m_one", Absent>>,
               <<"s_v20", "m_perr", "o_a">>, <<"s_v20", "m_exc", Absent>>, <<"s_v10", "m_ok", Absent>>}
 ElemIds == {Absent, "null", "i0", "im1", "i1", "s_1", "s_empty", "i2"}
-ElemsFull == {RD(x[1], i, x[2], x[3]) : x \in ElemKinds, i \in ElemIds}
+ElemsFull == {RD(x[1], i, x[2], x[3]) : x \in ElemKinds, i \in ElemIds} \cup {RD("s_v20", Absent, "m_int", Absent), RD("s_v20", "o_a", "m_ok", Absent)}
 ElemsMid  == {RD(x[1], i, x[2], x[3]) : x \in ElemKinds, i \in {Absent, "i0", "i1", "s_1"}}
 InitC02Quick ==
     \/ \E kf \in KindFl, e \in ElemsFull : InitWith(PCfg(kf, "unset"), Single(e))
